@@ -194,7 +194,6 @@ theorem isReforward_complete_sent (c : Cfg) (r : Req) {s : St} (keep : Bool) {d 
 theorem isReforward_complete_other (c : Cfg) (r : Req) {s : St} (keep : Bool) (h : ∀ d b, s.phase ≠ .sent d b) :
     isReforward c r s (.serverComplete keep) = false := by
   simp only [isReforward]
-  split <;> simp_all
 
 /-- `complete()` in `sent` -/
 theorem complete_sent (c : Cfg) (r : Req) {s : St} (keep : Bool) {d : Nat} {b : Bool} (h : s.phase = .sent d b) :
@@ -226,13 +225,13 @@ theorem step_good (c : Cfg) (r : Req) (s : St) (e : Ev) (hnr : checkRetriable r 
       · dsimp only
         split
         · rename_i h; exact (openerKick_quiet c _).good (by first | (rw [pending_opening h]; omega) | (rw [pending_idle h]; omega))
-        · exact ⟨by simp_all [dispatches_nil, pending], fun d b h => by simp_all⟩
-        · exact ⟨by simp_all [dispatches_nil, pending], fun d b h => by simp_all⟩
+        · exact ⟨by simp_all [pending, dispatches_nil], fun d b h => by simp_all⟩
+        · exact ⟨by simp_all [pending, dispatches_nil], fun d b h => by simp_all⟩
         · rename_i h
           refine ⟨by simp_all [dispatches_nil, pending], fun d b h' => ?_⟩
           exact hs _ _ h
         · rename_i h; exact (useDestinations_quiet c r _).good (by first | (rw [pending_opening h]; omega) | (rw [pending_idle h]; omega))
-        · exact ⟨by simp_all [dispatches_nil, pending], fun d b h => by simp_all⟩
+        · exact ⟨by simp_all [pending, dispatches_nil], fun d b h => by simp_all⟩
   | notePinned ok =>
     simp only [step, isReforward, Bool.false_eq_true, ↓reduceIte]
     unfold usePinned
@@ -340,5 +339,580 @@ theorem step_good (c : Cfg) (r : Req) (s : St) (e : Ev) (hnr : checkRetriable r 
     · have hx' : ∀ d b, s.phase ≠ .sent d b := fun d b h => hx ⟨d, b, h⟩
       rw [isReforward_complete_other c r keep hx', complete_other c r keep hx']
       exact Good.same s _ hs
+
+/-- the counting invariant over a whole history -/
+theorem run_good (c : Cfg) (r : Req) (hnr : checkRetriable r = false) :
+    ∀ (evs : List Ev) (s : St), SentOk s →
+      dispatches (run c r s evs).2 + pending (run c r s evs).1 ≤ pending s + reforwards c r s evs
+  | [], s, _ => by simp [run, reforwards, dispatches_nil]
+  | e :: es, s, hs => by
+    have g := step_good c r s e hnr hs
+    have ih := run_good c r hnr es (step c r s e).1 g.sentOk
+    have hb := g.bound
+    simp only [run, reforwards, dispatches_append]
+    omega
+
+/-! ### ENTRY_FWD_HDR_WAIT is only set by a reply with a re-forwardable status -/
+
+@[simp] theorem stop_hdr (s : St) : (stop s).1.hdrWait = s.hdrWait := rfl
+@[simp] theorem dispatch_hdr (s : St) (d : Nat) (b : Bool) : (dispatch s d b).1.hdrWait = s.hdrWait := rfl
+@[simp] theorem openerKick_hdr (c : Cfg) (s : St) : (openerKick c s).1.hdrWait = s.hdrWait := (openerKick_quiet c s).hdr
+@[simp] theorem useDestinations_hdr (c : Cfg) (r : Req) (s : St) : (useDestinations c r s).1.hdrWait = s.hdrWait :=
+  (useDestinations_quiet c r s).hdr
+@[simp] theorem retryOrBail_hdr (c : Cfg) (r : Req) (s : St) : (retryOrBail c r s).1.hdrWait = s.hdrWait :=
+  (retryOrBail_quiet c r s).hdr
+
+theorem step_hdrWait (c : Cfg) (r : Req) (s : St) (e : Ev) (h : s.hdrWait = false)
+    (he : ∀ st, e = .replyHeaders st → isReforwardableStatus c st = false) : (step c r s e).1.hdrWait = false := by
+  cases e with
+  | noteDestination d =>
+    simp only [step, noteDestination]
+    repeat' split
+    all_goals simp [h]
+  | notePinned ok =>
+    simp only [step, usePinned]
+    repeat' split
+    all_goals simp [h, fail_hdrWait]
+  | noteDestinationsEnd =>
+    simp only [step, noteDestinationsEnd]
+    repeat' split
+    all_goals simp [h, fail_hdrWait]
+  | connectDone ok =>
+    simp only [step, connectDone]
+    repeat' split
+    all_goals simp [h]
+  | noteConnection o =>
+    simp only [step, noteConnection]
+    repeat' split
+    all_goals simp [h, fail_hdrWait]
+  | tick => simpa [step] using h
+  | shutdown => simpa [step] using h
+  | storeAbort =>
+    simp only [step]
+    repeat' split
+    all_goals simp [h]
+  | bodyConsumed =>
+    simp only [step]
+    repeat' split
+    all_goals simp [h]
+  | replyHeaders st =>
+    have := he st rfl
+    simp only [step]
+    repeat' split
+    all_goals simp [h, this]
+  | bufferedTooMuch =>
+    simp only [step]
+    repeat' split
+    all_goals simp [h]
+  | serverFailed f dr =>
+    simp only [step, serverEnd]
+    repeat' split
+    all_goals simp [h, fail_hdrWait]
+  | serverComplete keep =>
+    simp only [step, complete]
+    repeat' split
+    all_goals simp [h]
+
+/-- without such a reply no `complete()` is ever answered by a re-forward -/
+theorem reforwards_zero (c : Cfg) (r : Req) :
+    ∀ (evs : List Ev) (s : St), s.hdrWait = false →
+      (∀ st, Ev.replyHeaders st ∈ evs → isReforwardableStatus c st = false) → reforwards c r s evs = 0
+  | [], _, _, _ => rfl
+  | e :: es, s, h, hall => by
+    have h1 : (step c r s e).1.hdrWait = false :=
+      step_hdrWait c r s e h (fun st hst => hall st (by simp [hst]))
+    have ih := reforwards_zero c r es (step c r s e).1 h1 (fun st hst => hall st (by simp [hst]))
+    have h0 : isReforward c r s e = false := by
+      cases e <;> simp only [isReforward]
+      split
+      · cases hr : reforward c r s with
+        | false => rfl
+        | true => have := reforward_hdrWait c r s hr; simp [h] at this
+      · rfl
+    simp [reforwards, h0, ih]
+
+/-! ### a transaction that is not retriable never rides a reused pconn -/
+
+theorem not_mem_of_dispatches_zero {o : List Out} (h : dispatches o = 0) (d : Nat) (b : Bool) : Out.dispatch d b ∉ o := by
+  intro hm
+  have : 0 < dispatches o := by
+    unfold dispatches
+    exact List.countP_pos_iff.mpr ⟨_, hm, rfl⟩
+  omega
+
+/-- the opener (if any) was told "not retriable", and no reused connection is waiting to be dispatched -/
+structure NoReuse (s : St) : Prop where
+  opener : ∀ x, s.phase = .opening x → s.retriableOpener = false
+  answer : ∀ d, s.phase ≠ .answering d true
+
+theorem NoReuse.of_phase {s : St} (h1 : ∀ x, s.phase ≠ .opening x) (h2 : ∀ d b, s.phase ≠ .answering d b) : NoReuse s :=
+  ⟨fun x h => absurd h (h1 x), fun d => h2 d true⟩
+
+theorem stop_noReuse (s : St) : NoReuse (stop s).1 := NoReuse.of_phase (by simp [stop]) (by simp [stop])
+
+theorem openerKick_noReuse (c : Cfg) (s : St) (h : s.retriableOpener = false) : NoReuse (openerKick c s).1 := by
+  unfold openerKick
+  split
+  · exact stop_noReuse _
+  · split
+    · split
+      · exact ⟨fun x _ => h, fun d => by simp⟩
+      · exact stop_noReuse _
+    · dsimp only
+      split
+      · split
+        · rename_i h'; simp [h] at h'
+        · exact ⟨fun x _ => h, fun d => by simp⟩
+      · exact ⟨fun x _ => h, fun d => by simp⟩
+
+theorem connectStart_noReuse (c : Cfg) (r : Req) (s : St) (hR : (checkRetriable r || c.pconnForNonretriable) = false) :
+    NoReuse (connectStart c r s).1 := by
+  unfold connectStart
+  exact openerKick_noReuse c _ hR
+
+theorem useDestinations_noReuse (c : Cfg) (r : Req) (s : St) (hR : (checkRetriable r || c.pconnForNonretriable) = false) :
+    NoReuse (useDestinations c r s).1 := by
+  unfold useDestinations
+  repeat' split
+  all_goals first
+    | exact connectStart_noReuse c r _ hR
+    | exact stop_noReuse _
+    | exact NoReuse.of_phase (by simp) (by simp)
+
+theorem retryOrBail_noReuse (c : Cfg) (r : Req) (s : St) (hR : (checkRetriable r || c.pconnForNonretriable) = false) :
+    NoReuse (retryOrBail c r s).1 := by
+  unfold retryOrBail
+  split
+  · exact useDestinations_noReuse c r s hR
+  · exact stop_noReuse s
+
+theorem dispatch_noReuse (s : St) (d : Nat) (b : Bool) : NoReuse (dispatch s d b).1 :=
+  NoReuse.of_phase (by simp [dispatch]) (by simp [dispatch])
+
+theorem step_noReuse (c : Cfg) (r : Req) (s : St) (e : Ev) (hR : (checkRetriable r || c.pconnForNonretriable) = false)
+    (hp : e ≠ .notePinned true) (hs : NoReuse s) :
+    NoReuse (step c r s e).1 ∧ ∀ d, Out.dispatch d true ∉ (step c r s e).2 := by
+  cases e with
+  | noteDestination d =>
+    simp only [step]
+    split
+    · exact ⟨hs, by simp⟩
+    · unfold noteDestination
+      split
+      · exact ⟨hs, by simp⟩
+      · dsimp only
+        split
+        · rename_i h
+          exact ⟨openerKick_noReuse c _ (hs.opener _ h), fun d => not_mem_of_dispatches_zero (openerKick_quiet c _).disp d true⟩
+        · rename_i h; exact ⟨⟨fun x hx => hs.opener _ h, fun d => by simp_all⟩, by simp⟩
+        · rename_i h; exact ⟨⟨fun x hx => by simp_all, fun d hd => hs.answer d (by simp_all)⟩, by simp⟩
+        · rename_i h; exact ⟨NoReuse.of_phase (by simp_all) (by simp_all), by simp⟩
+        · exact ⟨useDestinations_noReuse c r _ hR, fun d => not_mem_of_dispatches_zero (useDestinations_quiet c r _).disp d true⟩
+        · rename_i h; exact ⟨NoReuse.of_phase (by simp_all) (by simp_all), by simp⟩
+  | notePinned ok =>
+    cases ok with
+    | true => exact absurd rfl hp
+    | false =>
+      simp only [step, usePinned]
+      split
+      · exact ⟨stop_noReuse _, by simp [stop]⟩
+      · exact ⟨hs, by simp⟩
+  | noteDestinationsEnd =>
+    simp only [step]
+    split
+    · exact ⟨hs, by simp⟩
+    · unfold noteDestinationsEnd
+      split
+      · exact ⟨hs, by simp⟩
+      · dsimp only
+        split
+        · split
+          · exact ⟨stop_noReuse _, by simp [stop]⟩
+          · exact ⟨⟨fun x hx => hs.opener x hx, fun d hd => hs.answer d hd⟩, by simp⟩
+        · split
+          · rename_i h
+            exact ⟨openerKick_noReuse c _ (hs.opener _ h), fun d => not_mem_of_dispatches_zero (openerKick_quiet c _).disp d true⟩
+          · exact ⟨⟨fun x hx => hs.opener x hx, fun d hd => hs.answer d hd⟩, by simp⟩
+          · exact ⟨⟨fun x hx => hs.opener x hx, fun d hd => hs.answer d hd⟩, by simp⟩
+          · exact ⟨⟨fun x hx => hs.opener x hx, fun d hd => hs.answer d hd⟩, by simp⟩
+          · exact ⟨stop_noReuse _, by simp [stop]⟩
+          · exact ⟨⟨fun x hx => hs.opener x hx, fun d hd => hs.answer d hd⟩, by simp⟩
+  | connectDone ok =>
+    simp only [step]
+    unfold connectDone
+    split
+    · rename_i d h
+      dsimp only
+      split
+      · exact ⟨⟨fun x hx => by simp at hx, fun d' hd => by simp_all⟩, by simp⟩
+      · exact ⟨openerKick_noReuse c _ (hs.opener _ h), fun d => not_mem_of_dispatches_zero (openerKick_quiet c _).disp d true⟩
+    · exact ⟨hs, by simp⟩
+  | noteConnection o =>
+    simp only [step]
+    unfold noteConnection
+    split
+    · rename_i d b h
+      have hb : b = false := by
+        cases b with
+        | false => rfl
+        | true => exact absurd h (hs.answer d)
+      subst hb
+      split
+      · exact ⟨dispatch_noReuse _ _ _, by simp [dispatch]⟩
+      · dsimp only
+        exact ⟨retryOrBail_noReuse c r _ hR, fun d => not_mem_of_dispatches_zero (retryOrBail_quiet c r _).disp d true⟩
+    · exact ⟨hs, by simp⟩
+  | tick => exact ⟨⟨fun x hx => hs.opener x hx, fun d hd => hs.answer d hd⟩, by simp [step]⟩
+  | shutdown => exact ⟨⟨fun x hx => hs.opener x hx, fun d hd => hs.answer d hd⟩, by simp [step]⟩
+  | storeAbort =>
+    simp only [step]
+    split
+    · exact ⟨hs, by simp⟩
+    · exact ⟨stop_noReuse _, by simp [stop]⟩
+  | bodyConsumed =>
+    simp only [step]
+    split
+    · rename_i h; exact ⟨NoReuse.of_phase (by simp_all) (by simp_all), by simp⟩
+    · exact ⟨hs, by simp⟩
+  | replyHeaders st =>
+    simp only [step]
+    split
+    · rename_i h; exact ⟨NoReuse.of_phase (by simp_all) (by simp_all), by simp⟩
+    · exact ⟨hs, by simp⟩
+  | bufferedTooMuch =>
+    simp only [step]
+    split
+    · rename_i h; exact ⟨NoReuse.of_phase (by simp_all) (by simp_all), by simp⟩
+    · exact ⟨hs, by simp⟩
+  | serverFailed f dr =>
+    simp only [step]
+    unfold serverEnd
+    split
+    · dsimp only
+      exact ⟨retryOrBail_noReuse c r _ hR, fun d => not_mem_of_dispatches_zero (retryOrBail_quiet c r _).disp d true⟩
+    · exact ⟨hs, by simp⟩
+  | serverComplete keep =>
+    simp only [step]
+    unfold complete
+    split
+    · dsimp only
+      split
+      · exact ⟨useDestinations_noReuse c r _ hR, fun d => not_mem_of_dispatches_zero (useDestinations_quiet c r _).disp d true⟩
+      · exact ⟨stop_noReuse _, by simp [stop]⟩
+    · exact ⟨hs, by simp⟩
+
+theorem run_noReuse (c : Cfg) (r : Req) (hR : (checkRetriable r || c.pconnForNonretriable) = false) :
+    ∀ (evs : List Ev) (s : St), NoReuse s → (∀ e ∈ evs, e ≠ .notePinned true) →
+      ∀ d, Out.dispatch d true ∉ (run c r s evs).2
+  | [], _, _, _, d => by simp [run]
+  | e :: es, s, hs, hp, d => by
+    have h1 := step_noReuse c r s e hR (hp e (by simp)) hs
+    have ih := run_noReuse c r hR es (step c r s e).1 h1.1 (fun e' he' => hp e' (by simp [he'])) d
+    simp only [run, List.mem_append, not_or]
+    exact ⟨h1.2 d, ih⟩
+
+/-! ### after a pconn race the same destination is retried on a fresh connection -/
+
+theorem race_retry_fresh (c : Cfg) (r : Req) (s : St) (d : Nat) (dr : Bool)
+    (hph : s.phase = .sent d true) (hrace : s.race = .possible) (hrec : s.receipt = some d) :
+    (step c r s (.serverFailed .zero dr)).1.phase = .stopped ∨
+    ((step c r s (.serverFailed .zero dr)).1.phase = .opening (some d) ∧
+      Out.connect d ∈ (step c r s (.serverFailed .zero dr)).2 ∧
+      (step c r s (.serverFailed .zero dr)).1.allowPconn = false) := by
+  simp only [step, serverEnd, hph]
+  simp only [fail, hrace, hrec, and_self, ↓reduceIte]
+  unfold retryOrBail
+  split
+  · right
+    simp only [useDestinations, List.isEmpty_cons, Bool.not_false, ↓reduceIte, connectStart]
+    simp only [openerKick]
+    split
+    · rename_i hx
+      -- checkRetry said yes, so tries and time are left
+      rename_i hcr
+      exfalso
+      unfold checkRetry at hcr
+      simp only [exhaustedTries] at hx hcr
+      repeat' split at hcr
+      all_goals simp_all
+    · simp
+  · left
+    simp [stop]
+
+/-! ### forward_max_tries bounds the number of dispatches -/
+
+/-- 1 while a successful opener answer is queued -/
+def ans (s : St) : Nat :=
+  match s.phase with
+  | .answering _ _ => 1
+  | _ => 0
+
+theorem ans_le_one (s : St) : ans s ≤ 1 := by unfold ans; split <;> omega
+
+/-- `k` dispatches so far: each one (and the queued answer, if any) has been counted in `n_tries`; attempts are only
+started while `n_tries < forward_max_tries` (the pinned connection being the only exception) -/
+structure Tries (c : Cfg) (s : St) (k : Nat) : Prop where
+  disp : k + ans s ≤ s.nTries
+  cap : s.nTries ≤ max c.maxTries 1
+  room : ∀ d, s.phase = .opening (some d) → s.nTries < c.maxTries
+  fresh : s.destinationsFound = false → s.nTries = 0 ∧ (s.phase = .idle ∨ s.phase = .stopped)
+
+/-- what the connect/retry helpers do to the counters -/
+structure KickFacts (c : Cfg) (s s' : St) : Prop where
+  tries : s'.nTries = s.nTries + ans s'
+  lt : ans s' = 1 → s.nTries < c.maxTries
+  room : ∀ d, s'.phase = .opening (some d) → s'.nTries < c.maxTries
+  found : s'.destinationsFound = s.destinationsFound
+
+theorem KickFacts.rebase {c : Cfg} {s1 s s' : St} (k : KickFacts c s1 s') (hn : s1.nTries = s.nTries)
+    (hf : s1.destinationsFound = s.destinationsFound) : KickFacts c s s' :=
+  ⟨by rw [k.tries, hn], by rw [← hn]; exact k.lt, k.room, by rw [k.found, hf]⟩
+
+theorem stop_kick (c : Cfg) (s0 s : St) (hn : s.nTries = s0.nTries) (hf : s.destinationsFound = s0.destinationsFound) :
+    KickFacts c s0 (stop s).1 :=
+  ⟨by simp [stop, ans, hn], by simp [stop, ans], by simp [stop], by simp [stop, hf]⟩
+
+theorem openerKick_kick (c : Cfg) (s : St) : KickFacts c s (openerKick c s).1 := by
+  unfold openerKick
+  split
+  · exact stop_kick c s _ (by simp [fail_nTries]) (by simp [fail_destinationsFound])
+  · rename_i hx
+    have hlt : s.nTries < c.maxTries := by
+      simp only [exhaustedTries, Bool.or_eq_true, decide_eq_true_eq, not_or] at hx
+      omega
+    split
+    · split
+      · exact ⟨by simp [ans], by simp [ans], by simp, rfl⟩
+      · exact stop_kick c s _ (by simp [fail_nTries]) (by simp [fail_destinationsFound])
+    · dsimp only
+      split
+      · split
+        · exact ⟨by simp [ans], fun _ => hlt, by simp, rfl⟩
+        · exact ⟨by simp [ans], by simp [ans], fun d _ => hlt, rfl⟩
+      · exact ⟨by simp [ans], by simp [ans], fun d _ => hlt, rfl⟩
+
+theorem connectStart_kick (c : Cfg) (r : Req) (s : St) : KickFacts c s (connectStart c r s).1 := by
+  unfold connectStart
+  exact (openerKick_kick c _).rebase rfl rfl
+
+theorem useDestinations_kick (c : Cfg) (r : Req) (s : St) : KickFacts c s (useDestinations c r s).1 := by
+  unfold useDestinations
+  split
+  · exact connectStart_kick c r s
+  · split
+    · exact ⟨by simp [ans], by simp [ans], by simp, rfl⟩
+    · apply stop_kick
+      · split
+        · rw [fail_nTries]
+        · rfl
+      · split
+        · rw [fail_destinationsFound]
+        · rfl
+
+theorem retryOrBail_kick (c : Cfg) (r : Req) (s : St) : KickFacts c s (retryOrBail c r s).1 := by
+  unfold retryOrBail
+  split
+  · exact useDestinations_kick c r s
+  · exact stop_kick c s s rfl rfl
+
+/-- a helper result keeps the invariant (the number of dispatches is unchanged: helpers are `Quiet`) -/
+theorem KickFacts.tries_inv {c : Cfg} {s s' : St} {k : Nat} (kf : KickFacts c s s') (hd : k ≤ s.nTries)
+    (hcap : s.nTries ≤ max c.maxTries 1) (hfound : s.destinationsFound = true) : Tries c s' k := by
+  have h1 := ans_le_one s'
+  refine ⟨by rw [kf.tries]; omega, ?_, kf.room, ?_⟩
+  · rw [kf.tries]
+    by_cases ha : ans s' = 1
+    · have := kf.lt ha; omega
+    · have : ans s' = 0 := by omega
+      omega
+  · intro h; rw [kf.found, hfound] at h; exact absurd h (by simp)
+
+theorem Tries.found_of_phase {c : Cfg} {s : St} {k : Nat} (t : Tries c s k) (h : s.phase ≠ .idle) (h' : s.phase ≠ .stopped) :
+    s.destinationsFound = true := by
+  cases hf : s.destinationsFound with
+  | true => rfl
+  | false => rcases (t.fresh hf).2 with h1 | h1 <;> simp_all
+
+theorem tries_stop {c : Cfg} {s : St} {k : Nat} (hd : k ≤ s.nTries) (hcap : s.nTries ≤ max c.maxTries 1)
+    (hf : s.destinationsFound = false → s.nTries = 0) : Tries c (stop s).1 (k + dispatches (stop s).2) :=
+  ⟨by simp [stop, dispatches, isDispatch, ans]; omega, by simpa [stop] using hcap, by simp [stop],
+   fun h => ⟨hf (by simpa [stop] using h), Or.inr rfl⟩⟩
+
+theorem step_tries (c : Cfg) (r : Req) (s : St) (e : Ev) (k : Nat) (t : Tries c s k) :
+    Tries c (step c r s e).1 (k + dispatches (step c r s e).2) := by
+  have hk : k ≤ s.nTries := by have := t.disp; omega
+  cases e with
+  | noteDestination d =>
+    simp only [step]
+    split
+    · simpa [dispatches_nil] using t
+    · unfold noteDestination
+      split
+      · simpa [dispatches_nil] using t
+      · dsimp only
+        split
+        · rw [(openerKick_quiet c _).disp]
+          exact (openerKick_kick c _).tries_inv hk t.cap rfl
+        · rename_i h
+          refine ⟨by simpa [dispatches_nil, ans, h] using t.disp, t.cap, fun d' _ => t.room _ h, by simp⟩
+        · rename_i h
+          refine ⟨by simpa [dispatches_nil, ans, h] using t.disp, t.cap, by simp_all, by simp⟩
+        · rename_i h
+          refine ⟨by simpa [dispatches_nil, ans, h] using t.disp, t.cap, by simp_all, by simp⟩
+        · rw [(useDestinations_quiet c r _).disp]
+          exact (useDestinations_kick c r _).tries_inv hk t.cap rfl
+        · rename_i h
+          refine ⟨by simpa [dispatches_nil, ans, h] using t.disp, t.cap, by simp_all, by simp⟩
+  | notePinned ok =>
+    simp only [step, usePinned]
+    split
+    · rename_i h
+      simp only [Bool.and_eq_true, decide_eq_true_eq, Bool.not_eq_true'] at h
+      obtain ⟨⟨⟨⟨_, hph⟩, _⟩, _⟩, hdf⟩ := h
+      have h0 := (t.fresh hdf).1
+      have hk0 : k = 0 := by omega
+      split
+      · refine ⟨by simp [dispatch, dispatches, isDispatch, ans, h0, hk0], by simp [dispatch, h0]; omega, by simp [dispatch], by simp [dispatch]⟩
+      · refine ⟨by simp [stop, dispatches, isDispatch, ans, fail_nTries, h0, hk0], by simp [stop, fail_nTries, h0], by simp [stop], by simp [stop, fail_destinationsFound]⟩
+    · simpa [dispatches_nil] using t
+  | noteDestinationsEnd =>
+    simp only [step]
+    split
+    · simpa [dispatches_nil] using t
+    · unfold noteDestinationsEnd
+      split
+      · simpa [dispatches_nil] using t
+      · dsimp only
+        split
+        · rename_i hdf
+          simp only [Bool.not_eq_true'] at hdf
+          have hf := t.fresh hdf
+          split
+          · refine ⟨by simp [stop, dispatches, isDispatch, ans, fail_nTries, hf.1]; omega, by simp [stop, fail_nTries, hf.1], by simp [stop], ?_⟩
+            intro _; simp [stop, fail_nTries, hf.1]
+          · refine ⟨?_, t.cap, t.room, fun _ => hf⟩
+            show k + dispatches [] + ans s ≤ s.nTries
+            simpa [dispatches_nil] using t.disp
+        · rename_i hdf
+          have hfound : s.destinationsFound = true := by simpa using hdf
+          split
+          · rw [(openerKick_quiet c _).disp]
+            exact (openerKick_kick c _).tries_inv hk t.cap hfound
+          · rename_i h
+            refine ⟨by simpa [dispatches_nil, ans, h] using t.disp, t.cap, fun d' _ => t.room _ h, by simp [hfound]⟩
+          · rename_i h
+            refine ⟨by simpa [dispatches_nil, ans, h] using t.disp, t.cap, by simp_all, by simp [hfound]⟩
+          · rename_i h
+            refine ⟨by simpa [dispatches_nil, ans, h] using t.disp, t.cap, by simp_all, by simp [hfound]⟩
+          · refine ⟨by simp [stop, dispatches, isDispatch, ans]; split <;> simp [fail_nTries] <;> omega, ?_, by simp [stop], ?_⟩
+            · simp only [stop]; split <;> simp [fail_nTries, t.cap]
+            · simp only [stop]; split <;> simp [fail_destinationsFound, hfound]
+          · rename_i h
+            refine ⟨by simpa [dispatches_nil, ans, h] using t.disp, t.cap, by simp_all, by simp [hfound]⟩
+  | connectDone ok =>
+    simp only [step]
+    unfold connectDone
+    split
+    · rename_i d h
+      have hroom := t.room d h
+      have hfound := t.found_of_phase (by simp [h]) (by simp [h])
+      dsimp only
+      split
+      · refine ⟨by simp [dispatches_nil, ans]; omega, by simp; omega, by simp, by simp [hfound]⟩
+      · rw [(openerKick_quiet c _).disp]
+        exact (openerKick_kick c _).tries_inv (by simp; omega) (by simp; omega) hfound
+    · simpa [dispatches_nil] using t
+  | noteConnection o =>
+    simp only [step]
+    unfold noteConnection
+    split
+    · rename_i d b h
+      have hfound := t.found_of_phase (by simp [h]) (by simp [h])
+      have hd : k + 1 ≤ s.nTries := by simpa [ans, h] using t.disp
+      split
+      · refine ⟨by simp [dispatch, dispatches, isDispatch, ans]; omega, by simpa [dispatch] using t.cap, by simp [dispatch], by simp [dispatch, hfound]⟩
+      · dsimp only
+        rw [(retryOrBail_quiet c r _).disp]
+        exact (retryOrBail_kick c r _).tries_inv (by simp [fail_nTries]; omega) (by simpa [fail_nTries] using t.cap)
+          (by simpa [fail_destinationsFound] using hfound)
+    · simpa [dispatches_nil] using t
+  | tick => exact ⟨by simpa [step, dispatches_nil, ans] using t.disp, t.cap, t.room, t.fresh⟩
+  | shutdown => exact ⟨by simpa [step, dispatches_nil, ans] using t.disp, t.cap, t.room, t.fresh⟩
+  | storeAbort =>
+    simp only [step]
+    split
+    · simpa [dispatches_nil] using t
+    · refine ⟨by simp [stop, dispatches, isDispatch, ans]; omega, t.cap, by simp [stop], ?_⟩
+      intro hf; exact ⟨(t.fresh hf).1, Or.inr rfl⟩
+  | bodyConsumed =>
+    simp only [step]
+    split
+    · rename_i d b h
+      exact ⟨by simpa [dispatches_nil, ans, h] using t.disp, t.cap, by simp [h], fun hf => by have := t.fresh hf; simp_all⟩
+    · simpa [dispatches_nil] using t
+  | replyHeaders st =>
+    simp only [step]
+    split
+    · rename_i d b h
+      exact ⟨by simpa [dispatches_nil, ans, h] using t.disp, t.cap, by simp [h], fun hf => by have := t.fresh hf; simp_all⟩
+    · simpa [dispatches_nil] using t
+  | bufferedTooMuch =>
+    simp only [step]
+    split
+    · rename_i d b h
+      exact ⟨by simpa [dispatches_nil, ans, h] using t.disp, t.cap, by simp [h], fun hf => by have := t.fresh hf; simp_all⟩
+    · simpa [dispatches_nil] using t
+  | serverFailed f dr =>
+    simp only [step]
+    unfold serverEnd
+    split
+    · rename_i d b h
+      have hfound := t.found_of_phase (by simp [h]) (by simp [h])
+      dsimp only
+      rw [(retryOrBail_quiet c r _).disp]
+      refine (retryOrBail_kick c r _).tries_inv ?_ ?_ ?_
+      · cases f <;> simp [fail_nTries] <;> omega
+      · cases f <;> simp [fail_nTries] <;> exact t.cap
+      · cases f <;> simp [fail_destinationsFound, hfound]
+    · simpa [dispatches_nil] using t
+  | serverComplete keep =>
+    simp only [step]
+    unfold complete
+    split
+    · rename_i d b h
+      have hfound := t.found_of_phase (by simp [h]) (by simp [h])
+      dsimp only
+      split
+      · rw [(useDestinations_quiet c r _).disp]
+        refine (useDestinations_kick c r _).tries_inv ?_ ?_ ?_
+        · split <;> simp <;> omega
+        · split <;> simp <;> exact t.cap
+        · split <;> simp [hfound]
+      · apply tries_stop
+        · split <;> simpa using hk
+        · split <;> simpa using t.cap
+        · split <;> simp [hfound]
+    · simpa [dispatches_nil] using t
+
+theorem run_tries (c : Cfg) (r : Req) : ∀ (evs : List Ev) (s : St) (k : Nat), Tries c s k →
+    Tries c (run c r s evs).1 (k + dispatches (run c r s evs).2)
+  | [], s, k, t => by simpa [run, dispatches_nil] using t
+  | e :: es, s, k, t => by
+    have t1 := step_tries c r s e k t
+    have ih := run_tries c r es (step c r s e).1 _ t1
+    simp only [run, dispatches_append]
+    rw [← Nat.add_assoc]
+    exact ih
+
+theorem init_tries (c : Cfg) (pool : List Nat) : Tries c (init pool) 0 :=
+  ⟨by simp [init, ans], by simp [init], by simp [init], by simp [init]⟩
+
+/-- forward_max_tries bounds the number of dispatches (a pinned connection is used even with forward_max_tries 0) -/
+theorem dispatches_le_maxTries (c : Cfg) (r : Req) (pool : List Nat) (evs : List Ev) :
+    dispatches (run c r (init pool) evs).2 ≤ max c.maxTries 1 := by
+  have t := run_tries c r evs (init pool) 0 (init_tries c pool)
+  have h1 := t.disp
+  have h2 := t.cap
+  omega
 
 end SquidModel.Fwd.Retry
